@@ -259,6 +259,12 @@ def judge(t, o):
     if st == "ok" and o["oid"] == t["iorder"] and not t["isorted"]:
         p.append(("ok-but-unsorted", "exit 0 but the stream is not sorted (TLC: Sorted(out) is false): "
                                      "when it cannot sort it must fail and say so"))
+    elif st == "ok" and sorted(o["oid"]) == list(range(1, n + 1)) and \
+            any(t["c"][o["oid"][i] - 1] > t["c"][o["oid"][i + 1] - 1] for i in range(n - 1)):
+        # (the conjunct  st = "ok" => Sorted(out)  of Verdict in OvniSort.tla, on the observed order)
+        p.append(("ok-but-unsorted", "exit 0 but the clocks of the stream it left (%s) are not non-decreasing: "
+                                     "when it cannot sort it must fail and say so"
+                  % [t["c"][i - 1] for i in o["oid"]]))
     if exp == "sorted" and st != "ok":
         p.append(("must-sort", "only regions are unsorted and the look back (-n %d) suffices, but ovnisort "
                                "did not succeed (%s): %s" % (t["n"], st, o["_stderr"][-300:])))
@@ -327,14 +333,14 @@ def gen_stream(rng, nev, ring, flavour):
             rng.shuffle(cl)
             for c in cl:
                 push("j" if rng.random() < 0.08 else "n", c)
-            if flavour == "garbage" and rng.random() < 0.3:
+            if flavour in ("garbage", "garbage+") and rng.random() < 0.3:
                 push("n", tc + 4)          # later than the closing marker
             push("e", tc)
             t = tc
             nreg += 1
         else:
             t += rng.choice((0, 0, 1, 1, 2, 6))
-            if flavour == "garbage" and rng.random() < 0.02 and t > 3:
+            if flavour in ("garbage", "garbage+") and rng.random() < (0.02 if flavour == "garbage" else 0.12) and t > 3:
                 push("n", t - 3)           # disorder outside any region
             else:
                 push("j" if rng.random() < 0.03 else "n", t)
@@ -354,6 +360,11 @@ def random_cases(rng, tier):
         nev = rng.choice((rng.randint(4, 40), rng.randint(40, 300)))
         ring = rng.choice((rng.randint(3, 12), rng.randint(4, 64), rng.randint(10, 1000)))
         cases.append(gen_stream(rng, nev, ring, rng.choice(fl)) + (ring,))
+    # streams with disorder OUTSIDE the regions (they cannot be sorted) mixed with legal regions before and after it
+    for i in range(60 if tier == "quick" else 600):
+        nev = rng.randint(8, 60)
+        ring = rng.randint(6, 64)
+        cases.append(gen_stream(rng, nev, ring, "garbage+") + (ring,))
     for i in range(big):
         nev = rng.randint(1000, bigmax)
         ring = rng.randint(10, 1000)
